@@ -154,6 +154,16 @@ def make (c):
                     g ['taper'][2] = float (np.linalg.norm (p2 - p1) / g ['n'] * (1.2 + 1.3 * ((c ['i'] * 7919) % 100) / 100.0))
     n = len (spec ['geo'])
     rd = np.random.default_rng ([c ['seed'], 61, c ['i']])
+    def multi_junction ():
+        ends = [np.array (g [e], float) for g in spec ['geo'] if g ['k'] == 'w' for e in ('p1', 'p2')]
+        unit_ = min (np.linalg.norm (np.array (g ['p2'], float) - np.array (g ['p1'], float)) / g ['n'] for g in spec ['geo'] if g ['k'] == 'w')
+        return any (sum (1 for q in ends if np.linalg.norm (p - q) <= 1e-3 * unit_) >= 3 for p in ends)
+    # (not on junctions of three and more wires: there the order of the wires matters for any distributed load - known
+    # finding distributed-load-on-junction-of-three - and a taper running into such a junction has a finding of its own)
+    if any (g.get ('taper') for g in spec ['geo']) and rd.random () < 0.6 and not sym and all (g ['k'] == 'w' for g in spec ['geo']) and not multi_junction ():
+        # lossy wire throughout (skin effect for all wires), on tapered wires: the loss of a pulse is that of its two
+        # unequal half segments, from whichever end the wire is written
+        spec ['loads'] = list (spec.get ('loads') or []) + [dict (k = 'skin', cond = float (10 ** rd.uniform (2.8, 5)), tag = None)]
     if n >= 2 and not sym and rd.random () < 0.35 and not any (g.get ('taper') for g in spec ['geo']):
         # one object (or two) of lossy or insulated conductor, the others bare: which wire carries the load must
         # not depend on order or direction (explicit tags then realise the order of the objects)
@@ -565,13 +575,14 @@ def check (c):
                         if v ['key'] != observe.IMP_KEY:
                             v ['key'] = 'approximate-junction-thick-wire'
                             v ['msg'] += ' [ends written with identical coordinates: worst margin %.3g]' % (ex.get ('margin') or 0.0)
-    if viol and spec.get ('dist'):
+    skin_all = [l for l in (spec.get ('loads') or []) if l.get ('k') in ('skin', 'ins') and 'at' not in l]
+    if viol and (spec.get ('dist') or skin_all):
         # known finding: a lossy / insulated wire on a junction of three or more wires. The deviation is classified as
         # that finding only if a loaded object takes part in such a junction and the same descriptions agree
         # once the distributed load is taken away
         loaded = [gi for gi, g in enumerate (m0.geo) if any (l.__class__.__name__ in ('Skin_Effect_Load', 'Insulation_Load') and l.geobj is g for l in m0.loads)]
         if any (len (cl) >= 3 and any (gi in loaded for gi, e in cl) for cl in jt):
-            bare = check ({k: v for k, v in spec.items () if k != 'dist'})
+            bare = check (dict ({k: v for k, v in spec.items () if k != 'dist'}, loads = [l for l in (spec.get ('loads') or []) if l not in skin_all]))
             if bare.get ('status') == 'held':
                 for v in viol:
                     if v ['key'] != observe.IMP_KEY:
